@@ -74,6 +74,9 @@ def step (le : α → α → Bool) (l : List α) : Op α → List α × Out α
     | none => (l, .err .indexError)
   | .clear => ([], .unit)
   | .sort rev => (ISet.sortedList le rev l, .unit)
+  | .sortBy lek rev bad =>
+    if decide (2 ≤ l.length) && l.any (fun x => bad.contains x) then (l, .err .cmpError)
+    else (ISet.sortedList lek rev l, .unit)
   | .reverse => (l.reverse, .unit)
   | .update os => (addAll l (os.flatMap (opItems l)), .unit)
   | .interUpdate os => (l.filter (inAll l os), .unit)
@@ -122,6 +125,43 @@ def ValidOp (l : List α) : Op α → Prop
 def ValidRun (le : α → α → Bool) : List α → List (Op α) → Prop
   | _, [] => True
   | l, op :: ops => ValidOp l op ∧ ValidRun le (step le l op).1 ops
+
+/-! ### several plain lists at once (the specification of `Mach`) -/
+
+structure SMach (α : Type) where
+  regs : List (List α)
+  cur : Nat
+
+def SMach.curList (m : SMach α) : List α := (m.regs[m.cur]?).getD []
+
+/-- the plain list a result stands for -/
+def resultList : Out α → List α
+  | .list l => dedup l
+  | _ => []
+
+def mstep (le : α → α → Bool) (m : SMach α) : MOp α → SMach α × Out α
+  | .sel k => (if k < m.regs.length then ⟨m.regs, k⟩ else m, .unit)
+  | .run f => (⟨m.regs.set m.cur (step le m.curList (f m.regs)).1, m.cur⟩, (step le m.curList (f m.regs)).2)
+  | .fork f => (⟨m.regs.set m.cur (step le m.curList (f m.regs)).1 ++
+                   [resultList (step le m.curList (f m.regs)).2], m.cur⟩,
+                (step le m.curList (f m.regs)).2)
+
+def mrunState (le : α → α → Bool) : SMach α → List (MOp α) → SMach α
+  | m, [] => m
+  | m, op :: ops => mrunState le (mstep le m op).1 ops
+
+def mrunOuts (le : α → α → Bool) : SMach α → List (MOp α) → List (Out α)
+  | _, [] => []
+  | m, op :: ops => (mstep le m op).2 :: mrunOuts le (mstep le m op).1 ops
+
+def MValidOp (m : SMach α) : MOp α → Prop
+  | .sel _ => True
+  | .run f => ValidOp m.curList (f m.regs)
+  | .fork f => ValidOp m.curList (f m.regs)
+
+def MValidRun (le : α → α → Bool) : SMach α → List (MOp α) → Prop
+  | _, [] => True
+  | m, op :: ops => MValidOp m op ∧ MValidRun le (mstep le m op).1 ops
 
 end Spec
 end C11
